@@ -1,7 +1,92 @@
-//! C15: not built yet.
-use anyhow::{bail, Result};
-use serde_json::Value;
+//! C15: add_specialized_methods_to_mappings / Jar::get_specialized_methods (module compiled in from
+//! /repo/src/specialized_methods/mod.rs).
+//!
+//! ops  {"op":"bridges","main":jar}                                   -> [[bridge ref, specialized ref]..] sorted, refs = [owner,name,desc]
+//!      {"op":"mappings","main":jar,"libs":jar,"cal":tree,"named":tree} -> {ok,v:tree}
+use anyhow::{Context, Result};
+use rand::rngs::StdRng;
+use rand::{Rng, SeedableRng};
+use serde_json::{json, Value};
+use dukebox::storage::UnnamedMemJar;
+use quill::tree::mappings::Mappings;
+use crate::gen_quill::pick;
+use crate::jarkit::jar_from_abstract;
+use crate::proj_quill::*;
+use crate::specialized_methods::{add_specialized_methods_to_mappings, GetSpecializedMethods};
+use crate::{Intermediary, Named, Official};
+use super::res_tree;
 
-pub fn exec(_v: &Value) -> Result<Value> { bail!("C15: driver not built") }
+pub fn exec(v: &Value) -> Result<Value> {
+	let main = UnnamedMemJar { data: jar_from_abstract(&v["main"])? };
+	match v["op"].as_str().context("op")? {
+		"bridges" => {
+			let r = match main.get_specialized_methods() { Ok(r) => r, Err(_) => return Ok(json!({"ok": false})) };
+			let mut out: Vec<Value> = r.bridge_to_specialized.iter().map(|(b, s)| json!([
+				[b.class.to_string(), b.name.to_string(), b.desc.to_string()], [s.class.to_string(), s.name.to_string(), s.desc.to_string()]])).collect();
+			out.sort_by_key(|x| x.to_string());
+			Ok(Value::Array(out))
+		},
+		"mappings" => {
+			let libs = vec![UnnamedMemJar { data: jar_from_abstract(&v["libs"])? }];
+			let cal: Mappings<2, (Official, Intermediary)> = json_to_tree(&v["cal"])?;
+			let named: Mappings<2, (Intermediary, Named)> = json_to_tree(&v["named"])?;
+			Ok(res_tree(add_specialized_methods_to_mappings(&main, &cal, &libs, &named)))
+		},
+		op => anyhow::bail!("C15: unknown op {op}"),
+	}
+}
 
-pub fn gen(_seed: u64, _n: usize) -> Result<Vec<Value>> { bail!("C15: driver not built") }
+/// Random jars with bridge patterns: a chain of classes, each possibly with a synthetic method delegating to a method of the
+/// same class; signatures from a pool of related / unrelated types; random flags; identity calamus with some renames.
+pub fn gen(seed: u64, n: usize) -> Result<Vec<Value>> {
+	let mut r = StdRng::seed_from_u64(seed ^ 0xC15);
+	let sigs: &[(&str, &str)] = &[("(LT1;)V", "(LT0;)V"), ("(Ljava/lang/Object;)V", "(LT0;)V"), ("()LT1;", "()LT0;"), ("(LT0;)V", "(LT1;)V"), ("(I)V", "(I)V"),
+		("(I)V", "(J)V"), ("(LT1;LT1;)LT1;", "(LT0;LT1;)LT0;"), ("()V", "()LT0;"), ("([LT1;)V", "([LT0;)V"), ("(LOut;)V", "(LT0;)V")];
+	let flagsets: &[&[&str]] = &[&["synthetic", "bridge"], &["synthetic"], &["synthetic", "final"], &["synthetic", "static"], &["synthetic", "private"], &[], &["bridge"]];
+	let mut out = vec![];
+	while out.len() < n {
+		let nc = r.gen_range(1..5usize);
+		let mut main = serde_json::Map::new();
+		let types_in_main = r.gen_bool(0.6);
+		if types_in_main {
+			main.insert("T0".into(), json!({"super": "T1", "itfs": [], "methods": []}));
+			if r.gen_bool(0.8) { main.insert("T1".into(), json!({"super": "java/lang/Object", "itfs": [], "methods": []})); }
+		}
+		let mut named_classes = serde_json::Map::new();
+		let mut cal_classes = serde_json::Map::new();
+		for i in 0..nc {
+			let cname = format!("C{i}");
+			let sup = if i == 0 { "java/lang/Object".to_owned() } else { format!("C{}", i - 1) };
+			let mut methods = vec![];
+			let mut nkids = serde_json::Map::new();
+			let mut ckids = serde_json::Map::new();
+			for k in 0..r.gen_range(0..3usize) {
+				let (bs, ds) = *pick(&mut r, sigs);
+				let acc: Vec<&str> = pick(&mut r, flagsets).to_vec();
+				let bname = format!("b{k}");
+				let dname = format!("d{i}_{k}");
+				let calls = match r.gen_range(0..6) { 0 => json!([]), 1 => json!([[cname, dname, ds], [cname, "zz", "()V"]]), _ => json!([[cname, dname, ds]]) };
+				methods.push(json!({"name": bname, "desc": bs, "acc": acc, "code": true, "calls": calls}));
+				methods.push(json!({"name": dname, "desc": ds, "acc": [], "code": true, "calls": []}));
+				// the bridge is named in this class or (same name and descriptor) in C0
+				if r.gen_bool(0.5) { nkids.insert(format!("m {bname} {bs}"), node("m", json!([bname, format!("named_{bname}_{i}")]), bs, 0, json!([]), Default::default())); }
+				if r.gen_bool(0.3) { nkids.insert(format!("m {dname} {ds}"), node("m", json!([dname, "old"]), ds, 0, json!(["doc"]), Default::default())); }
+				let _ = &mut ckids;
+			}
+			main.insert(cname.clone(), json!({"super": sup, "itfs": [], "methods": methods}));
+			if r.gen_bool(0.85) { named_classes.insert(format!("c {cname}"), node("c", json!([cname, format!("n/{cname}")]), "", 0, json!([]), nkids)); }
+			cal_classes.insert(format!("c {cname}"), node("c", json!([cname, cname]), "", 0, json!([]), ckids));
+		}
+		let cal = json!({"ns": ["official", "intermediary"], "doc": [], "kids": cal_classes});
+		let named = json!({"ns": ["intermediary", "named"], "doc": [], "kids": named_classes});
+		let main = Value::Object(main);
+		out.push(json!({"op": "mappings", "main": main, "libs": {}, "cal": cal, "named": named}));
+		out.push(json!({"op": "bridges", "main": main}));
+	}
+	out.truncate(n);
+	Ok(out)
+}
+
+fn node(kind: &str, names: Value, desc: &str, idx: usize, doc: Value, kids: serde_json::Map<String, Value>) -> Value {
+	json!({"kind": kind, "names": names, "desc": desc, "idx": idx, "doc": doc, "kids": Value::Object(kids)})
+}
